@@ -105,6 +105,14 @@ func (t *DestinationTask) Do(ctx context.Context, batch *Batch) error {
 			return cerrors.Errorf("failed to receive acks for %d records from destination: %w", len(positions), err)
 		}
 
+		if len(acks) == 0 {
+			// An empty reply confirms nothing. Without this check it still used
+			// up one iteration of this loop, so after len(positions) empty
+			// replies the batch was treated as fully acked and the records
+			// were acknowledged to the source without ever being confirmed.
+			return cerrors.Errorf("destination returned an empty list of acks while %d records are still unconfirmed", len(positions)-ackCount)
+		}
+
 		if err := t.validateAcks(acks, positions[ackCount:]); err != nil {
 			return cerrors.Errorf("failed to validate acks: %w", err)
 		}
